@@ -417,20 +417,70 @@ theorem boxWith_sat {c : Ctx} {s : M PV} (hs : ∀ need, Sat c need s PV.objs) :
         exact Sat.pure _ (by simp)
       | _ => exact Sat.throwE _
 
+theorem mem_unregOne {tbl : List Slot} {key : Val} {s : Slot} (h : s ∈ unregOne tbl key) :
+    ∃ s' ∈ tbl, s'.o = s.o ∧ s'.key = s.key := by
+  unfold unregOne at h
+  split at h
+  · exact ⟨s, h, rfl, rfl⟩
+  · split at h
+    · exact ⟨s, (List.mem_filter.mp h).1, rfl, rfl⟩
+    · obtain ⟨s', hs', e⟩ := List.mem_map.mp h
+      refine ⟨s', hs', ?_⟩
+      split at e <;> (subst e; exact ⟨rfl, rfl⟩)
+
+theorem mem_unregAll (added : List Val) : ∀ (tbl : List Slot) (s : Slot), s ∈ added.foldl unregOne tbl →
+    ∃ s' ∈ tbl, s'.o = s.o ∧ s'.key = s.key := by
+  induction added with
+  | nil => intro tbl s h; exact ⟨s, h, rfl, rfl⟩
+  | cons k ks ih =>
+    intro tbl s h
+    obtain ⟨s1, h1, e1, e2⟩ := ih (unregOne tbl k) s h
+    obtain ⟨s2, h2, e3, e4⟩ := mem_unregOne h1
+    exact ⟨s2, h2, e3.trans e1, e4.trans e2⟩
+
+theorem Sat.unregister {c : Ctx} {need : List Nat} (added : List Val) : Sat c need (unregister added) (fun _ => []) :=
+  Sat.modify _ (fun _ => rfl) (fun st s hs => mem_unregAll added st.table s hs) (fun _ _ hp => hp)
+
+theorem boxCollect_sat {c : Ctx} {s : M PV} (hs : ∀ need, Sat c need s PV.objs) (need : List Nat) (v : PV)
+    (hv : ∀ o ∈ v.objs, o ∈ need) : Sat c need (boxCollect s v) (fun _ => []) := by
+  unfold boxCollect
+  refine Sat.bind_getCtx ?_
+  refine Sat.bind (Sat.modify _ (fun _ => rfl) (fun _ s hs => ⟨s, hs, rfl, rfl⟩) (fun _ p hp => hp)) (fun _ => ?_)
+  refine Sat.bind (Sat.attempt (boxWith_sat hs _ _ v (by intro o ho; simp [hv o ho]))) (fun r => ?_)
+  refine Sat.bind_getSt (fun st => ?_)
+  refine Sat.bind (Sat.modify _ (fun _ => rfl) (fun _ s hs => ⟨s, hs, rfl, rfl⟩) (fun _ p hp => hp)) (fun _ => ?_)
+  exact Sat.pure _ (by simp)
+
+theorem requestFailed_sat {c : Ctx} {need : List Nat} (seq : Nat) (added : List Val) (x : Exc) :
+    Sat c need (requestFailed seq added x) PV.objs := by
+  unfold requestFailed
+  refine Sat.bind (Sat.unregister added) (fun _ => ?_)
+  refine Sat.bind (Sat.modify _ (fun _ => rfl) (fun _ s hs => ⟨s, hs, rfl, rfl⟩) (fun _ p hp => hp)) (fun _ => ?_)
+  exact Sat.throwX x
+
 theorem requestWith_sat {c : Ctx} (hA : AwaitOK c) {s : M PV} (hs : ∀ need, Sat c need s PV.objs)
     (need : List Nat) (h : Nat) (args : List PV) (hN : ∀ o ∈ PV.objsL args, o ∈ need) :
     Sat c need (requestWith s h args) PV.objs := by
   unfold requestWith
-  refine Sat.bind_getCtx ?_
-  refine Sat.bind (boxWith_sat hs _ need (mkTuple args) (fun o ho => hN o (mkTuple_objs args o ho))) (fun boxed => ?_)
   refine Sat.bind_getSt (fun st => ?_)
   refine Sat.bind (Sat.modify _ (fun _ => rfl) (fun _ s hs => ⟨s, hs, rfl, rfl⟩) (fun _ p hp => hp)) (fun _ => ?_)
-  refine Sat.bind (Sat.attempt (Sat.sendFrame _ rfl rfl (by intro t ht; cases ht) (by intro k o h; cases h))) (fun sent => ?_)
-  cases sent with
+  refine Sat.bind (boxCollect_sat hs _ (mkTuple args) (fun o ho => by
+    have := hN o (mkTuple_objs args o ho); simp [this])) (fun ra => ?_)
+  obtain ⟨r, added⟩ := ra
+  cases r with
   | error x =>
-    refine Sat.bind (Sat.modify _ (fun _ => rfl) (fun _ s hs => ⟨s, hs, rfl, rfl⟩) (fun _ p hp => hp)) (fun _ => ?_)
-    exact Sat.throwX x
-  | ok a => exact Sat.awaitReply hA _
+    simp only
+    exact Sat.ite (fun _ => requestFailed_sat _ _ _) (fun _ => Sat.throwX x)
+  | ok boxed =>
+    simp only
+    cases encodable boxed with
+    | error e => exact requestFailed_sat _ _ _
+    | ok u =>
+      simp only
+      refine Sat.bind (Sat.attempt (Sat.sendFrame _ rfl rfl (by intro t ht; cases ht) (by intro k o h; cases h))) (fun sent => ?_)
+      cases sent with
+      | error x => exact requestFailed_sat _ _ _
+      | ok a => exact Sat.awaitReply hA _
 
 theorem settle_sat {c : Ctx} (hA : AwaitOK c) : ∀ n need, Sat c need (settle n) PV.objs := by
   intro n
@@ -475,7 +525,7 @@ theorem Sat.prim {c : Ctx} (hA : AwaitOK c) {need : List Nat} (t : Touch) (hg : 
 theorem Sat.boxTop {c : Ctx} (hA : AwaitOK c) {need : List Nat} (v : PV) (hn : ∀ o ∈ v.objs, o ∈ need) :
     Sat c need (boxTop v) (fun _ => []) := by
   unfold Handlers.boxTop
-  exact Sat.bind_getCtx (boxWith_sat (settle_sat hA _) _ _ v hn)
+  exact Sat.bind_getCtx (boxCollect_sat (settle_sat hA _) _ v hn)
 
 theorem Sat.requestTop {c : Ctx} (hA : AwaitOK c) {need : List Nat} (h : Nat) (args : List PV)
     (hn : ∀ o ∈ PV.objsL args, o ∈ need) : Sat c need (requestTop h args) PV.objs := by
@@ -1209,46 +1259,105 @@ theorem Inv.pushNT {cfg : Config} {root : Nat} {st : St} (hI : Inv cfg root st) 
     Inv cfg root { st with log := st.log ++ [e] } :=
   hI.push e hg (fun t ht => absurd ht (hnt t)) (fun k o h => absurd h (hnl k o))
 
-theorem sendExc_step (c : Ctx) (seq : Val) (x : Exc) (st : St) (fut : List Wire) (hI : Inv c.cfg c.root st) :
-    Inv c.cfg c.root (sendExc seq x c st fut).st ∧ Answered seq st (sendExc seq x c st fut).st := by
+/-- `m` keeps the invariants and ends with exactly one answer to `seq` after balanced activity -/
+def Step (c : Ctx) (seq : Val) (need : List Nat) (m : M Unit) : Prop :=
+  ∀ st fut, Inv c.cfg c.root st → (∀ o ∈ need, o ∈ known c.root st.log) →
+    Inv c.cfg c.root (m c st fut).st ∧ Answered seq st (m c st fut).st
+
+theorem sendExc_step (c : Ctx) (seq : Val) (x : Exc) (need : List Nat) : Step c seq need (sendExc seq x) := by
+  intro st fut hI _
   unfold sendExc
   split
   · exact ⟨hI.pushNT _ rfl (by intro t h; cases h), Answered.one seq st _ rfl rfl⟩
   · exact ⟨hI.pushNT _ rfl (by intro t h; cases h), Answered.one seq st _ rfl rfl⟩
+
+theorem abortWith_step (c : Ctx) (seq : Val) (x : Exc) (need : List Nat) : Step c seq need (abortWith seq x) := by
+  intro st fut hI _
+  exact ⟨hI.pushNT _ rfl (by intro t h; cases h), Answered.one seq st _ rfl rfl⟩
 
 theorem Answered.after {seq : Val} {a b d : St} (h1 : Ext a b) (h2 : Answered seq b d) : Answered seq a d := by
   obtain ⟨l1, e1, b1⟩ := h1.ext
   obtain ⟨l2, e, e2, b2, b3, ha⟩ := h2
   exact ⟨l1 ++ l2, e, by simp [e2, e1, List.append_assoc], by simp [balL_append, b1, b2], b3, ha⟩
 
-theorem sendResult_step (c : Ctx) (hA : AwaitOK c) (seq : Val) (res : PV) (st : St) (fut : List Wire)
-    (hI : Inv c.cfg c.root st) (hk : ∀ o ∈ res.objs, o ∈ known c.root st.log) :
-    Inv c.cfg c.root (sendResult seq res c st fut).st ∧ Answered seq st (sendResult seq res c st fut).st := by
-  obtain ⟨h1, h2, _⟩ := Sat.boxTop hA (need := res.objs) res (fun o ho => ho) st fut hI hk
-  unfold sendResult
-  cases hb : boxTop res c st fut with
+theorem Step.bind {α} {c : Ctx} {seq : Val} {need : List Nat} {m : M α} {f : α → M Unit} {Q : α → List Nat}
+    (h1 : Sat c need m Q) (hne : ∀ st fut x, (m c st fut).r ≠ .error x) (h2 : ∀ a, Step c seq (need ++ Q a) (f a)) :
+    Step c seq need (m >>= f) := by
+  intro st fut hI hN
+  obtain ⟨g1, g2, g3⟩ := h1 st fut hI hN
+  have hx := hne st fut
+  show Inv c.cfg c.root ((Bind.bind m f) c st fut).st ∧ _
+  simp only [Bind.bind]
+  cases hm : m c st fut with
   | mk r st1 fut1 =>
-    rw [hb] at h1 h2
+    rw [hm] at g1 g2 g3 hx
     cases r with
-    | error x =>
-      simp only
-      split
-      · exact ⟨h1.pushNT _ rfl (by intro t h; cases h),
-          Answered.after h2 (Answered.one seq _ _ rfl rfl)⟩
-      · obtain ⟨g1, g2⟩ := sendExc_step c seq x st1 fut1 h1
-        exact ⟨g1, Answered.after h2 g2⟩
-    | ok b =>
-      simp only
-      cases encodable b with
-      | error e =>
-        simp only
-        obtain ⟨g1, g2⟩ := sendExc_step c seq (Exc.ofErr e) st1 fut1 h1
-        exact ⟨g1, Answered.after h2 g2⟩
-      | ok _ =>
-        simp only
-        split
-        · exact ⟨h1.pushNT _ rfl (by intro t h; cases h), Answered.after h2 (Answered.one seq _ _ rfl rfl)⟩
-        · exact ⟨h1.pushNT _ rfl (by intro t h; cases h), Answered.after h2 (Answered.one seq _ _ rfl rfl)⟩
+    | error x => exact absurd rfl (hx x)
+    | ok a =>
+      have hN2 : ∀ o ∈ need ++ Q a, o ∈ known c.root st1.log := by
+        intro o ho
+        rcases List.mem_append.mp ho with h | h
+        · exact known_mono g2 (hN o h)
+        · exact g3 a rfl o h
+      obtain ⟨k1, k2⟩ := h2 a st1 fut1 g1 hN2
+      exact ⟨k1, Answered.after g2 k2⟩
+
+theorem modify_total (f : St → St) (c : Ctx) (st : St) (fut : List Wire) (x : Exc) :
+    (Handlers.modify f c st fut).r ≠ .error x := by
+  intro h; cases h
+
+theorem unregister_total (added : List Val) (c : Ctx) (st : St) (fut : List Wire) (x : Exc) :
+    (unregister added c st fut).r ≠ .error x := modify_total _ c st fut x
+
+theorem sendReply_step (c : Ctx) (seq b : Val) (added : List Val) (need : List Nat) : Step c seq need (sendReply seq b added) := by
+  intro st fut hI hN
+  unfold sendReply
+  split
+  · exact Step.bind (Sat.unregister added) (unregister_total added c) (fun _ => abortWith_step c seq _ _) st fut hI hN
+  · exact ⟨hI.pushNT _ rfl (by intro t h; cases h), Answered.one seq st _ rfl rfl⟩
+
+theorem boxTop_total (v : PV) (c : Ctx) (st : St) (fut : List Wire) (x : Exc) : (boxTop v c st fut).r ≠ .error x := by
+  intro h
+  simp only [Handlers.boxTop, Handlers.boxCollect, Handlers.getCtx, Handlers.getSt, Handlers.modify, Handlers.attempt,
+    Bind.bind, Pure.pure] at h
+  cases h
+
+theorem sendResult_step (c : Ctx) (hA : AwaitOK c) (seq : Val) (res : PV) (need : List Nat) (hk : ∀ o ∈ res.objs, o ∈ need) :
+    Step c seq need (sendResult seq res) := by
+  unfold sendResult
+  refine Step.bind (Sat.boxTop hA res hk) (boxTop_total res c) (fun ra => ?_)
+  obtain ⟨r, added⟩ := ra
+  cases r with
+  | error x =>
+    simp only
+    by_cases he : x.eof = true
+    · simp only [he, if_true]
+      exact Step.bind (Sat.unregister added) (unregister_total added c) (fun _ => abortWith_step c seq _ _)
+    · simp only [he]
+      by_cases hx : x.isException = true
+      · simp only [hx, if_true]
+        exact Step.bind (Sat.unregister added) (unregister_total added c) (fun _ => sendExc_step c seq _ _)
+      · simp only [hx]
+        exact abortWith_step c seq _ _
+  | ok b =>
+    simp only
+    cases encodable b with
+    | error e => exact Step.bind (Sat.unregister added) (unregister_total added c) (fun _ => sendExc_step c seq _ _)
+    | ok u => exact sendReply_step c seq b added _
+
+theorem answer_step (c : Ctx) (hA : AwaitOK c) (seq : Val) (r : Except Exc PV) (need : List Nat)
+    (hk : ∀ v, r = .ok v → ∀ o ∈ v.objs, o ∈ need) : Step c seq need (answer seq r) := by
+  intro st fut hI hN
+  unfold answer
+  show Inv c.cfg c.root ((Bind.bind getCfg _) c st fut).st ∧ _
+  simp only [Bind.bind, Handlers.getCfg]
+  cases r with
+  | ok res => exact sendResult_step c hA seq res need (hk res rfl) st fut hI hN
+  | error x =>
+    simp only
+    split
+    · exact abortWith_step c seq x need st fut hI hN
+    · exact sendExc_step c seq x need st fut hI hN
 
 /-- **one request, one answer**: whatever `raw` is, `_dispatch_request` logs the request, then balanced activity (its
 handler's touches, nested requests each with their own answer), then exactly one answer to `seq` -/
@@ -1258,28 +1367,35 @@ theorem dispatchRequest_step (c : Ctx) (hA : AwaitOK c) (seq raw : Val) (st : St
     ∃ l e, (dispatchRequest seq raw c st fut).st.log = st.log ++ [.request seq] ++ l ++ [e] ∧ balL l = 0 ∧
       evBal e = -1 ∧ e.answers seq := by
   have hI0 := hI.pushNT (.request seq) rfl (by intro t h; cases h)
-  obtain ⟨h1, h2, h3⟩ := handleRequest_sat hA (need := []) raw _ fut hI0 (by intro o ho; cases ho)
+  obtain ⟨h1, h2, h3⟩ := Sat.attempt (handleRequest_sat hA (need := []) raw) _ fut hI0 (by intro o ho; cases ho)
   unfold dispatchRequest
-  cases hh : handleRequest raw c { st with log := st.log ++ [.request seq] } fut with
+  simp only [Bind.bind, Handlers.push, Handlers.modify]
+  cases hh : attempt (handleRequest raw) c { st with log := st.log ++ [.request seq] } fut with
   | mk r st1 fut1 =>
     rw [hh] at h1 h2 h3
-    have fin : ∀ st2, Inv c.cfg c.root st2 → Answered seq st1 st2 →
-        Inv c.cfg c.root st2 ∧ ∃ l e, st2.log = st.log ++ [.request seq] ++ l ++ [e] ∧ balL l = 0 ∧
-          evBal e = -1 ∧ e.answers seq := by
-      intro st2 hi ha
-      obtain ⟨l, e, e1, b1, b2, b3⟩ := Answered.after h2 ha
-      exact ⟨hi, l, e, by simpa using e1, b1, b2, b3⟩
     cases r with
-    | ok res =>
-      simp only
-      obtain ⟨g1, g2⟩ := sendResult_step c hA seq res st1 fut1 h1 (h3 res rfl)
-      exact fin _ g1 g2
     | error x =>
+      exfalso
+      simp only [Handlers.attempt] at hh
+      cases hq : handleRequest raw c { st with log := st.log ++ [.request seq] } fut with
+      | mk r' s' f' => rw [hq] at hh; cases hh
+    | ok r =>
       simp only
-      split
-      · exact fin _ (h1.pushNT _ rfl (by intro t h; cases h)) (Answered.one seq _ _ rfl rfl)
-      · obtain ⟨g1, g2⟩ := sendExc_step c seq x st1 fut1 h1
-        exact fin _ g1 g2
+      have hk : ∀ v, r = .ok v → ∀ o ∈ v.objs, o ∈ known c.root st1.log := by
+        intro v hv o ho
+        have := h3 r rfl o (by subst hv; exact ho)
+        exact this
+      -- the objects of the handler's result are known: use them as `need` through a list that is known
+      obtain ⟨g1, l, e, e1, b1, b2, b3⟩ := answer_step c hA seq r (match r with | .ok v => v.objs | .error _ => [])
+        (by intro v hv o ho; subst hv; exact ho) st1 fut1 h1 (by
+          intro o ho
+          cases r with
+          | ok v => exact hk v rfl o ho
+          | error x => cases ho)
+      obtain ⟨l0, e0, b0⟩ := h2.ext
+      refine ⟨g1, l0 ++ l, e, ?_, by simp [balL_append, b0, b1], b2, b3⟩
+      rw [e1, e0]
+      simp [List.append_assoc]
 
 theorem Sat.dispatchRequest {c : Ctx} (hA : AwaitOK c) {need : List Nat} (seq raw : Val) :
     Sat c need (dispatchRequest seq raw) (fun _ => []) := by
